@@ -184,11 +184,22 @@ def loop (cfg : List (RunC κ)) (H : Harness) (stop : Option Nat) (sched : Sched
 invocation or a failure, and more than 6 failures abandon the run -/
 def fuelFor (cfg : List (RunC κ)) : Nat := (cfg.map (fun c => c.invocations + 9)).sum + 1
 
+/-- `RunId.is_first_copy`: of the data points of run `k` loaded from a file, those whose
+(invocation, iteration) was already loaded from an earlier file are the same data points -/
+def newInFile (k : κ) (seen : List (Nat × Nat)) (ls : List (Loaded κ)) : List (Loaded κ) :=
+  ls.filter (fun l => l.k = k ∧ (l.inv, l.it) ∉ seen)
+
+def countedLoaded (k : κ) : List (Nat × Nat) → List (List (Loaded κ)) → List (List (Loaded κ))
+  | _, [] => []
+  | seen, ls :: rest =>
+      newInFile k seen ls :: countedLoaded k (seen ++ (newInFile k seen ls).map (fun l => (l.inv, l.it))) rest
+
 /-- state of a new session: every file is loaded (in the order of the files),
-progress is restored per run: `_max_invocation` is the maximum, samples add up -/
+progress is restored per run: `_max_invocation` is the maximum, a data point
+counts as a sample once, however many of the run's files contain it -/
 def initRun (c : RunC κ) (loaded : List (List (Loaded κ))) : RunSt :=
   { m := (loaded.map (maxInv c.key)).foldl max 0,
-    samples := (loaded.map (sampleCount c.key c.warmup)).sum,
+    samples := ((countedLoaded c.key [] loaded).map (sampleCount c.key c.warmup)).sum,
     consec := 0, failed := 0, failImm := false }
 
 inductive SessionEnd where
